@@ -49,8 +49,8 @@ def mons(shape, k, kz):
     if shape in ("segment", "quadrangle", "hexahedron"):
         return list(itertools.product(range(k + 1), repeat=d))
     if shape in ("triangle", "tetrahedron"):
-        return [a for a in itertools.product(range(k + 1), repeat=d) if sum(a) <= k]
-    return [a + (c,) for a in itertools.product(range(k + 1), repeat=2) if sum(a) <= k for c in range(kz + 1)]
+        return [a for a in itertools.product(range(k + 1), repeat=d) if not (sum(a) > k)]
+    return [a + (c,) for a in itertools.product(range(k + 1), repeat=2) if not (sum(a) > k) for c in range(kz + 1)]
 
 
 def inside(shape, x, tol=1e-14):
@@ -76,14 +76,14 @@ def check_rule(res, tag, key, shape, coord, w, k, kz):
                      dict(rule=tag, point=p, coord=coord[p].tolist()))
     tol = 2e-13 * max(1.0, MEASURE[shape])
     res.case((tag, "wsum"))
-    if abs(w.sum() - MEASURE[shape]) > tol:
+    if not (abs(w.sum() - MEASURE[shape]) <= tol):
         ok = False
         res.fail(f"{key} weight-sum", f"{tag}: weights sum to {w.sum()!r}, reference measure {MEASURE[shape]}",
                  dict(rule=tag, sum=float(w.sum())))
     for a in mons(shape, k, kz):
         val = float((w * np.prod(coord ** np.array(a), axis=1)).sum())
         res.case((tag, "moment", a), nontrivial=sum(a) > 0)
-        if abs(val - ref_moment(shape, a)) > tol:
+        if not (abs(val - ref_moment(shape, a)) <= tol):
             ok = False
             res.fail(f"{key} exactness", f"{tag}: integral of xi^{a} = {val!r}, exact {ref_moment(shape, a)!r} (claimed degree {k},{kz})",
                      dict(rule=tag, monomial=list(a), value=val, exact=ref_moment(shape, a)))
@@ -176,7 +176,7 @@ def main():
             except (ValueError, IndexError):
                 res.disagree("model-answer", dict(rule=tag, what=what, answer=ans))
                 continue
-            if abs(model - real) > 4e-16 * max(1.0, abs(model)) + 1e-300:
+            if not (abs(model - real) <= 4e-16 * max(1.0, abs(model)) + 1e-300):
                 res.disagree("rule-value", dict(rule=tag, what=what, model=model, real=real))
         for kk in (1, len(lines) // 2, len(lines) - 1):
             res.sample(dict(request=lines[kk], model=answers[kk], real=expect[kk][2]))
@@ -191,7 +191,7 @@ def main():
             while True:
                 A = np.eye(3)
                 A[:d, :d] = [[rng.randint(-4, 4) / 4 for _ in range(d)] for _ in range(d)]
-                if abs(np.linalg.det(A)) > 0.2:
+                if not (abs(np.linalg.det(A)) <= 0.2):
                     break
             t = np.zeros(3)
             t[:d] = [rng.randint(-8, 8) / 4 for _ in range(d)]
@@ -202,14 +202,14 @@ def main():
             vol0 = float(np.prod(size))
             meas = [mesh.length, mesh.area, mesh.volume][d - 1] if d > 1 else mesh.groupElem.length
             res.case((et, "measure", rep))
-            if abs(meas - vol0 * detA) > 1e-11 * vol0 * detA:
+            if not (abs(meas - vol0 * detA) <= 1e-11 * vol0 * detA):
                 res.fail(f"mesh={et} measure", f"{et}: measure {meas!r} of the affine image of a box of measure {vol0} (|det A| = {detA}), exact {vol0 * detA!r}",
                          dict(elem=et, A=A.tolist(), t=t.tolist(), measure=float(meas), exact=vol0 * detA))
             c0 = np.zeros(3)
             c0[:d] = np.array(size) / 2
             cexp = A @ c0 + t
             res.case((et, "center", rep))
-            if np.abs(np.asarray(mesh.center) - cexp).max() > 1e-10 * (1 + np.abs(cexp).max()):
+            if not (np.abs(np.asarray(mesh.center) - cexp).max() <= 1e-10 * (1 + np.abs(cexp).max())):
                 res.fail(f"mesh={et} center", f"{et}: center {np.asarray(mesh.center).tolist()} exact {cexp.tolist()}",
                          dict(elem=et, A=A.tolist(), t=t.tolist()))
             # polynomial of degree <= order in physical coordinates, exact value by a 12-point tensor Gauss rule on the box
@@ -233,9 +233,140 @@ def main():
             exact = float((wts.ravel() * f(X[:, 0], X[:, 1], X[:, 2])).sum() * detA)
             got = float(sum(g.Integrate_e(f).sum() for g in M.main_groups(mesh)))
             res.case((et, "integral", tuple(expo), rep), nontrivial=sum(expo) > 0)
-            if abs(got - exact) > 1e-10 * (1 + abs(exact)):
+            if not (abs(got - exact) <= 1e-10 * (1 + abs(exact))):
                 res.fail(f"mesh={et} integral", f"{et}: Integrate_e(x^{expo}) = {got!r}, exact {exact!r}",
                          dict(elem=et, A=A.tolist(), t=t.tolist(), exponents=expo, value=got, exact=exact))
+
+    # ---------- the rules offered do not depend on what callers did with the arrays handed out before ----------
+    # A caller folds a thickness into "its" weights and centres "its" points, in place (read-only arrays
+    # that refuse the write are fine); a Gauss object built afterwards must still be the documented rule.
+    thick = rng.randint(1, 9) / 10
+    shift = rng.randint(1, 3) / 3
+
+    def caller_writes(g):
+        for arr, op in ((g.weights, "w"), (g.coord, "x")):
+            try:
+                if op == "w":
+                    arr *= thick
+                else:
+                    arr -= shift
+            except ValueError:  # read-only: the table is protected
+                pass
+
+    def same_rule_again(tag, key, make, snap_x, snap_w, ident):
+        res.case((tag, "after-caller-write"))
+        try:
+            caller_writes(make())
+            g2 = make()
+            x2, w2 = np.asarray(g2.coord, float), np.asarray(g2.weights, float)
+        except Exception as e:  # noqa: BLE001
+            res.fail(f"{key} after-caller-write raises", f"{tag}: {type(e).__name__}: {e}", ident)
+            return
+        if x2.shape != snap_x.shape or w2.shape != snap_w.shape or not (np.array_equal(x2, snap_x) and np.array_equal(w2, snap_w)):
+            res.fail(f"{key} after-caller-write changed",
+                     f"{tag}: after a caller multiplied in place the weights of an earlier object by {thick} and subtracted {shift} from its points, "
+                     f"a new object has weights summing to {float(w2.sum())!r} (before: {float(snap_w.sum())!r}), first point {x2[0].tolist()} (before: {snap_x[0].tolist()})",
+                     dict(ident, thickness=thick, shift=shift))
+
+    for (shape, n), g in offered.items():
+        if (shape, n) not in SPEC:
+            continue
+        # `g` was checked above (check_rule) before anybody wrote anything: it is the reference
+        same_rule_again(f"Gauss({REP[shape]}, {n})", f"rule={shape}_{n}", lambda r=REP[shape], n=n: Gauss(ElemType(r), n),
+                        np.array(g.coord, float), np.array(g.weights, float), dict(rule=f"{shape}_{n}"))
+    for et, mt in pairs:
+        g = Gauss(ElemType(et), MatrixType(mt))
+        same_rule_again(f"Gauss({et}, {mt})", f"factory={et}:{mt}", lambda et=et, mt=mt: Gauss(ElemType(et), MatrixType(mt)),
+                        np.array(g.coord, float), np.array(g.weights, float), dict(elem=et, matrixType=mt))
+    # the same through the element groups of a mesh: the caller post-processes what Get_weight_pg / Get_gauss return
+    for et in REP.values():
+        d = M.dim_of(et)
+        mesh = M.mesh_of(et)
+        res.case((et, "mesh-after-caller-write"))
+        try:
+            for grp in M.main_groups(mesh):
+                for mt in [m for (e, m) in pairs if e == et]:
+                    w = grp.Get_weight_pg(MatrixType(mt))
+                    try:
+                        w *= thick
+                    except ValueError:
+                        pass
+                    x = grp.Get_gauss(MatrixType(mt)).coord
+                    try:
+                        x -= shift
+                    except ValueError:
+                        pass
+            mesh2 = M.mesh_of(et)
+            size = dict(SEG=(4.0,), TRI=(2.0, 1.0), QUAD=(2.0, 1.0), TETRA=(2.0, 1.0, 1.5), HEXA=(2.0, 1.0, 1.5), PRISM=(2.0, 1.0, 1.5))[
+                "".join(c for c in et if not c.isdigit())]
+            vol0 = float(np.prod(size))
+            meas = float(sum([g.length, g.area, g.volume][d - 1] for g in M.main_groups(mesh2)))
+            ix = float(sum(g.Integrate_e(lambda x, y, z: x).sum() for g in M.main_groups(mesh2)))
+            cen = np.asarray(mesh2.center, float)
+        except Exception as e:  # noqa: BLE001
+            res.fail(f"mesh={et} after-caller-write raises", f"{et}: {type(e).__name__}: {e}", dict(elem=et, thickness=thick, shift=shift))
+            continue
+        cexp = np.zeros(3)
+        cexp[:d] = np.array(size) / 2
+        if not (abs(meas - vol0) <= 1e-11 * vol0) or not (abs(ix - vol0 * size[0] / 2) <= 1e-11 * vol0 * size[0]) \
+                or not (np.abs(cen - cexp).max() <= 1e-10):
+            res.fail(f"mesh={et} after-caller-write",
+                     f"{et}: a caller scaled in place by {thick} the arrays returned by Get_weight_pg and shifted by {shift} those of Get_gauss(...).coord on one mesh; "
+                     f"a second box mesh {size} then has measure {meas!r} (exact {vol0}), integral of x {ix!r} (exact {vol0 * size[0] / 2}), center {cen.tolist()} (exact {cexp.tolist()})",
+                     dict(elem=et, thickness=thick, shift=shift, measure=meas, int_x=ix, center=cen.tolist()))
+
+    # ---------- units: measures, centroids and first moments of a non-symmetric polygon / extruded polygon scale exactly ----------
+    # L shape (three unit squares, area 3, centroid (5/6, 5/6)): the mean of the nodes is not the centroid.
+    # The same mesh expressed in other length units (mesh.coord = coord0 * s, e.g. mm or micrometres in metres).
+    poly = [(0, 0), (2, 0), (2, 1), (1, 1), (1, 2), (0, 2)]
+    px, py = np.array(poly, float).T
+    cr = px * np.roll(py, -1) - np.roll(px, -1) * py
+    area0 = cr.sum() / 2
+    cx0 = ((px + np.roll(px, -1)) * cr).sum() / (6 * area0)
+    cy0 = ((py + np.roll(py, -1)) * cr).sum() / (6 * area0)
+    hz = 0.7
+    scales = [1e3, 1e-3, 1e-6, 1e-9, rng.choice([1, 2, 5]) * 10.0 ** rng.randint(-8, 2)]
+    unit_types = ["TRI3", "TRI6", "QUAD4", "QUAD8", "TETRA4", "PRISM6"] if args.tier == "quick" else [e for e in M.ALL if M.dim_of(e) > 1]
+    from EasyFEA import Mesher
+    from EasyFEA.Geoms import Points as _Points
+    for et in unit_types:
+        d = M.dim_of(et)
+        ident0 = dict(elem=et, polygon=poly, h=0.5, extrude=hz if d == 3 else None)
+        try:
+            if d == 2:
+                mesh = M.mesh_2d(et, polygon=poly, h=0.5)
+            else:
+                mesh = Mesher().Mesh_Extrude(_Points(poly, 0.5), [], [0, 0, hz], [] if et in M.TETRA else [2], ElemType(et))
+            coord0 = np.array(mesh.coord, float)
+        except Exception as e:  # noqa: BLE001
+            res.fail(f"mesh={et} units raises", f"{et}: meshing the L shape: {type(e).__name__}: {e}", ident0)
+            continue
+        m0 = area0 * (hz if d == 3 else 1.0)
+        c0 = np.array([cx0, cy0, hz / 2 if d == 3 else 0.0])
+        for s in scales:
+            res.case((et, "units", s))
+            ident = dict(ident0, scale=s)
+            try:
+                mesh.coord = coord0 * s
+                groups = M.main_groups(mesh)
+                meas = float(sum([g.length, g.area, g.volume][d - 1] for g in groups))
+                mom = [float(sum(g.Integrate_e(f).sum() for g in groups))
+                       for f in (lambda x, y, z: x, lambda x, y, z: y, lambda x, y, z: z)]
+                cen = np.asarray(mesh.center, float)
+                cen_g = [np.asarray(g.center, float) for g in groups]
+            except Exception as e:  # noqa: BLE001
+                res.fail(f"mesh={et} units raises", f"{et} scaled by {s}: {type(e).__name__}: {e}", ident)
+                continue
+            if not (abs(meas - m0 * s**d) <= 1e-10 * m0 * s**d):
+                res.fail(f"mesh={et} units measure", f"{et}: L shape scaled by {s}: measure {meas!r}, exact {m0 * s**d!r}", dict(ident, measure=meas))
+            if not (np.abs(np.array(mom) - m0 * c0 * s ** (d + 1)).max() <= 1e-10 * m0 * s ** (d + 1)):
+                res.fail(f"mesh={et} units first-moment", f"{et}: L shape scaled by {s}: integrals of x, y, z {mom}, exact {(m0 * c0 * s ** (d + 1)).tolist()}",
+                         dict(ident, moments=mom))
+            if not (np.abs(cen - c0 * s).max() <= 1e-10 * s):
+                res.fail(f"mesh={et} units center", f"{et}: L shape scaled by {s}: mesh.center {cen.tolist()}, exact {(c0 * s).tolist()}", dict(ident, center=cen.tolist()))
+            elif len(groups) == 1 and not (np.abs(cen_g[0] - c0 * s).max() <= 1e-10 * s):
+                res.fail(f"mesh={et} units group-center", f"{et}: L shape scaled by {s}: groupElem.center {cen_g[0].tolist()}, exact {(c0 * s).tolist()}",
+                         dict(ident, center=cen_g[0].tolist()))
 
     # ---------- rank adequacy on real assembled matrices ----------
     for et in M.ALL:
@@ -250,12 +381,12 @@ def main():
         wC = np.linalg.eigvalsh((C + C.T) / 2)
         nullK = int((np.abs(wK) < 1e-9 * wK.max()).sum())
         res.case((et, "conduction-kernel"))
-        if nullK != 1 or wK.min() < -1e-9 * wK.max():
+        if nullK != 1 or not (wK.min() >= -1e-9 * wK.max()):
             res.fail(f"elem={et} matrix=rigi conduction-kernel={nullK}",
                      f"{et}: assembled conduction matrix on a {mesh.Ne}-element mesh has {nullK} zero-energy modes (1 expected), min eig {wK.min():.3e}",
                      dict(elem=et, Ne=int(mesh.Ne), kernel=nullK))
         res.case((et, "mass-spd"))
-        if wC.min() < 1e-9 * wC.max():
+        if not (wC.min() >= 1e-9 * wC.max()):
             res.fail(f"elem={et} matrix=mass singular",
                      f"{et}: assembled capacity (mass) matrix on a {mesh.Ne}-element mesh is singular: min/max eigenvalue {wC.min() / wC.max():.3e}",
                      dict(elem=et, Ne=int(mesh.Ne), ratio=float(wC.min() / wC.max())))
